@@ -42,38 +42,59 @@ package redisemu
 //@ func storeKey.isExpiredUnlocked
 //@ inline
 
-// ---- lock wrapper (re-entrant under EXEC through multiLock; one acquisition per command otherwise)
+// ---- lock wrapper: re-entrant under EXEC through multiLock. Verified against
+// the protocol below (atomics on multiLock are modelled as sequentially
+// consistent field accesses; sync.Mutex on dataStore.mu drives the ghost held).
+//
+// multiLock names a command exactly while that command holds the store
+// exclusively (EXEC); a command's own id is written only by itself, and no two
+// live commands share an id (newDataStoreCommand) — so from one command's point
+// of view "multiLock == my id" changes only through its own calls.
+//@ stable dataStore.multiLock dataStoreCommand.id
+// a command is either nested in its own exclusive section (lock held, multiLock
+// names it) or a normal command that does not hold the lock
+//@ pred lockMode(dsc *dataStoreCommand) = dsc.id != 0 && (held == (dsc.ds.multiLock == dsc.id))
 
 //@ func dataStoreCommand.lock
-//@ trusted CAS on multiLock then ds.mu.Lock(); modelled as acquiring the store lock once
+//@ prop C08 C16
 //@ requires dsc != nil && dsc.ds != nil
-//@ requires [C08,C16] once: !held
-//@ effect held = true
+//@ requires [C08,C16] mode: lockMode(dsc)
+//@ modifies ghost.held
+//@ ensures held
 
 //@ func dataStoreCommand.unlock
-//@ trusted releases what lock() acquired
-//@ requires dsc != nil && dsc.ds != nil
+//@ prop C08 C16
+//@ requires dsc != nil && dsc.ds != nil && dsc.id != 0
 //@ requires [C08,C16] isheld: held
-//@ effect held = false
+//@ modifies ghost.held
+//@ ensures lockMode(dsc)
 
 //@ func dataStoreCommand.unlockAndUnblock
-//@ trusted wakes waiters while the lock is still held, then releases it
-//@ requires dsc != nil && dsc.ds != nil && uk != nil
+//@ prop C08 C16
+//@ requires dsc != nil && dsc.ds != nil && dsc.ds.waitingClients != nil && uk != nil && dsc.id != 0
 //@ requires [C08,C16] isheld: held
-//@ modifies waitTable objectWaitList wakeSignal signalListTuple unblockKey
-//@ effect held = false
+//@ modifies ghost.held waitTable objectWaitList wakeSignal signalListTuple unblockKey
+//@ ensures lockMode(dsc)
+
+//@ func dataStore.unblockListUnlocked
+//@ trusted wakes waiters of a key (C11); touches only the wait table
+//@ requires ds != nil && ds.waitingClients != nil
+//@ requires [C08,C16] locked: held
+//@ modifies waitTable objectWaitList wakeSignal signalListTuple
 
 //@ func dataStoreCommand.acquireExclusive
-//@ trusted
+//@ prop C08 C16 C09
 //@ requires dsc != nil && dsc.ds != nil
-//@ requires [C08,C16] once: !held
-//@ effect held = true
+//@ requires [C08,C16] once: !held && lockMode(dsc)
+//@ modifies ghost.held dataStore.multiLock
+//@ ensures held && dsc.ds.multiLock == dsc.id
 
 //@ func dataStoreCommand.releaseExclusive
-//@ trusted
-//@ requires dsc != nil && dsc.ds != nil
-//@ requires [C08,C16] isheld: held
-//@ effect held = false
+//@ prop C08 C16 C09
+//@ requires dsc != nil && dsc.ds != nil && dsc.id != 0
+//@ requires [C08,C16] isheld: held && dsc.ds.multiLock == dsc.id
+//@ modifies ghost.held dataStore.multiLock
+//@ ensures !held && lockMode(dsc)
 
 // ---- keyspace dictionary (contracts assumed here; proved against the dict representation under C04)
 
